@@ -3,4 +3,5 @@ EXTENDS Render
 ASSUME AllRoundTrip
 ASSUME Injective
 ASSUME IntShapesOK
+ASSUME SeqRenderingCompositional
 =============================================================================
